@@ -1297,6 +1297,20 @@ pub fn names_family(tier: Tier) -> Vec<Member> {
             out.push(Member { family: "names", coords: format!("stale entry in subsection {} variant {}", sub, variant), wasm: build_names_stale(sub, variant) });
         }
     }
+    // every kind of entity both imported and defined, all of them named
+    for (what, src) in [
+        ("imported and defined entities of every kind, all named", r#"(module $m (type $ty (func (param i32) (result i32)))
+            (import "env" "f" (func $imp_f (type $ty))) (import "env" "tbl" (table $imp_t 4 funcref)) (import "env" "mem" (memory $imp_m 1)) (import "env" "g" (global $imp_g i32))
+            (table $own_t 2 funcref) (memory $own_m 1) (global $own_g (mut i32) (i32.const 1))
+            (elem $seg (table $imp_t) (i32.const 0) func $imp_f $own_f) (data $dat (memory $own_m) (i32.const 0) "x")
+            (func $own_f (export "f") (type $ty) (local $l i32) (global.set $own_g (global.get $imp_g)) (i32.load8_u $imp_m (i32.const 0)) (drop)
+              (table.size $own_t) (drop) (call $imp_f (local.get 0))))"#),
+        ("only imported entities are named", r#"(module (import "env" "tbl" (table $imp_t 4 funcref)) (import "env" "mem" (memory $imp_m 1)) (import "env" "g" (global $imp_g i32))
+            (table 2 funcref) (memory 1) (global (mut i32) (i32.const 1))
+            (func (export "f") (result i32) (global.set 1 (global.get $imp_g)) (i32.load8_u $imp_m (i32.const 0)) (drop) (table.size 1) (drop) (table.size $imp_t)))"#),
+    ] {
+        out.push(Member { family: "names", coords: what.to_string(), wasm: wat::parse_str(src).unwrap_or_else(|e| panic!("names member: {}", e)) });
+    }
     for &shape in shapes {
         for mask in 0..512u32 {
             out.push(Member { family: "names", coords: format!("shape={},mask={:09b}", shape, mask), wasm: build_names(shape, mask) });
@@ -1551,6 +1565,42 @@ pub fn build_leb_full(n: usize, big: usize, size: usize, nop_variant: bool, extr
         let mut code = padded_code(7999, 13, 0);
         code.push(END);
         mb.func(t0, vec![], code);
+    }
+    mb.build()
+}
+
+/// n exported functions (as `build_leb_full` with big = 0) and one unexported function of
+/// `dead_nops` nops in front of exported function #`dead_pos` (`dead_pos` = n: at the end): what gc
+/// removes can be as small as a three-byte code entry, anywhere between survivors
+pub fn build_leb_dead_at(n: usize, size: usize, locals_mode: u8, dead_pos: usize, dead_nops: usize) -> Vec<u8> {
+    let mut mb = MB::default();
+    let t0 = mb.ty(&[], &[]);
+    let dead = |mb: &mut MB| {
+        let mut code = vec![0x01u8; dead_nops];
+        code.push(END);
+        mb.func(t0, vec![], code);
+    };
+    for i in 0..n {
+        if i == dead_pos {
+            dead(&mut mb);
+        }
+        let marker = 7000 + i as i32;
+        let code_len = if i == 0 { size.saturating_sub(2).max(4) } else { 4 + (i % 3) * 3 };
+        let mut code = padded_code(marker, code_len.max(cat(&[&i32_const(marker), &[DROP]]).len()), 0);
+        let locals = match locals_mode {
+            1 => {
+                code.extend_from_slice(&cat(&[&local_get(0), &[DROP]]));
+                vec![(1, 0x7f)]
+            }
+            2 => vec![(1, 0x7f), (2, 0x7e)],
+            _ => vec![],
+        };
+        code.push(END);
+        let f = mb.func(t0, locals, code);
+        mb.export(&format!("f{}", i), 0, f);
+    }
+    if dead_pos >= n {
+        dead(&mut mb);
     }
     mb.build()
 }
@@ -1886,6 +1936,68 @@ pub fn ctrl_family(tier: Tier) -> Vec<Member> {
     let k = if tier == Tier::Quick { 3 } else { 4 };
     let mut memo = vec![];
     let mut out = vec![];
+    // if/else whose arms end in every combination of {fall through, br to the if itself, br to the
+    // enclosing block, return, unreachable}, optionally with an earlier conditional branch to the if
+    // itself, followed by code (which is live whenever the if can be left normally or through its own label)
+    {
+        let ends: [&[u8]; 5] = [&[], &[0x0c, 0x00], &[0x0c, 0x01], &[0x41, 0x05, 0x0f], &[0x00]];
+        for (ai, a) in ends.iter().enumerate() {
+            for (bi, b) in ends.iter().enumerate() {
+                for early in [false, true] {
+                    let mut mb = MB::default();
+                    let t0 = mb.ty(&[I32], &[I32]);
+                    let t1 = mb.ty(&[I32, I32], &[I32]);
+                    mb.imports.push(("env".into(), "log".into(), Desc::Func(t0)));
+                    let log = |id: i32| cat(&[&i32_const(id), &call(0), &[DROP]]);
+                    let mut code = cat(&[&i32_const(8500), &[DROP]]);
+                    code.extend_from_slice(&[0x02, 0x40]); // enclosing block
+                    code.extend_from_slice(&cat(&[&local_get(0), &[0x04, 0x40]]));
+                    code.extend_from_slice(&log(1));
+                    if early {
+                        code.extend_from_slice(&cat(&[&local_get(1), &[0x0d, 0x00]]));
+                    }
+                    code.extend_from_slice(&log(2));
+                    code.extend_from_slice(a);
+                    code.push(0x05);
+                    code.extend_from_slice(&log(3));
+                    if early {
+                        code.extend_from_slice(&cat(&[&local_get(1), &[0x0d, 0x00]]));
+                    }
+                    code.extend_from_slice(b);
+                    code.push(END);
+                    code.extend_from_slice(&log(4)); // after the if, inside the block
+                    code.push(END);
+                    code.extend_from_slice(&log(5));
+                    code.extend_from_slice(&local_get(0));
+                    code.push(END);
+                    let f = mb.func(t1, vec![], code);
+                    mb.export("f", 0, f);
+                    out.push(Member { family: "ctrl", coords: format!("if-exits then={} else={} early-br-to-if={}", ai, bi, early), wasm: mb.build() });
+                }
+            }
+        }
+    }
+    // an `if` in dead code (after br / return / unreachable) inside one or two live ifs, with and without arms of its own
+    for term in ["(br 0)", "(return (i32.const 5))", "(unreachable)"] {
+        for dead_has_else in [false, true] {
+            for outer_else in [false, true] {
+                for depth in [1usize, 2] {
+                    let dead = if dead_has_else { "(if (local.get 1) (then (drop (call $log (i32.const 31)))) (else (drop (call $log (i32.const 32)))))" } else { "(if (local.get 1) (then (drop (call $log (i32.const 31)))))" };
+                    let mut inner = format!("(drop (call $log (i32.const 21))) {} {} (drop (call $log (i32.const 22)))", term, dead);
+                    for d in 0..depth {
+                        let els = if outer_else { format!("(else (drop (call $log (i32.const {}))))", 40 + d) } else { String::new() };
+                        inner = format!("(drop (call $log (i32.const {}))) (if (local.get {}) (then {}) {}) (drop (call $log (i32.const {})))", 10 + d, d % 2, inner, els, 50 + d);
+                    }
+                    let src = format!(r#"(module (import "env" "log" (func $log (param i32) (result i32))) (func (export "f") (param i32 i32) (result i32) (i32.const 8600) (drop) {} (i32.const 7)))"#, inner);
+                    out.push(Member {
+                        family: "ctrl",
+                        coords: format!("dead-if-in-live-if term={} dead-else={} outer-else={} depth={}", term, dead_has_else, outer_else, depth),
+                        wasm: wat::parse_str(&src).unwrap_or_else(|e| panic!("dead-if member: {}\n{}", e, src)),
+                    });
+                }
+            }
+        }
+    }
     // pairs of br_tables around the sizes where an implementation may switch strategy
     for n in if tier == Tier::Quick { vec![1usize, 15, 16, 17, 64] } else { vec![1usize, 2, 7, 8, 9, 15, 16, 17, 31, 32, 33, 64, 255, 256, 257] } {
         for shape in 0..3u8 {
@@ -1972,6 +2084,27 @@ pub fn minimal_family() -> Vec<Member> {
         ("only-tail-call", r#"(module (func $g (result i32) (i32.const 1)) (func (export "f") (result i32) (return_call $g)))"#),
         ("only-multi-memory", r#"(module (memory 1) (memory 1) (func (export "f") (result i32) (i32.load 1 (i32.const 0))))"#),
         ("typed-select-numeric", r#"(module (func (export "f") (param i32) (result i64) (select (result i64) (i64.const 1) (i64.const 2) (local.get 0))))"#),
+        // all data segments active and named, nothing uses a bulk-memory instruction
+        ("named-active-data-only", r#"(module (memory 1) (data $greeting (i32.const 8) "hello") (data $other (i32.const 0) "x") (func (export "f") (i32.const 8350) (drop)))"#),
+        // a passive element segment that only elem.drop names, next to tables nothing uses
+        ("elem-drop-only-and-unused-local-table", r#"(module (table 2 funcref) (func $x) (elem $p func $x) (func (export "f") (i32.const 8351) (drop) (elem.drop $p)))"#),
+        ("elem-drop-only-and-unused-imported-table", r#"(module (import "env" "t" (table 2 funcref)) (func $x) (elem $p func $x) (func (export "f") (i32.const 8352) (drop) (elem.drop $p)))"#),
+        ("data-drop-only-and-unused-memories", r#"(module (memory 1) (memory 2) (data $p "pp") (func (export "f") (i32.const 8353) (drop) (data.drop $p)))"#),
+        // defined globals: one initialised from an imported global in front of constant-initialised ones
+        ("global-get-initialised-global-before-constant-ones", r#"(module (import "a" "g" (global $ig i32)) (global $first (export "first") i32 (global.get $ig)) (global $second (export "second") i32 (i32.const 7)) (global $third (mut i64) (i64.const 9))
+            (func (export "f") (result i32) (i32.const 8354) (drop) (global.set $third (i64.const 1)) (i32.add (global.get $first) (global.get $second))))"#),
+        // memories at the top of the 32-bit range
+        ("memory-max-65536-pages", r#"(module (memory 1 65536) (func (export "f") (result i32) (i32.const 8355) (drop) (memory.size)))"#),
+        ("memory-min-65536-pages", r#"(module (memory 65536) (func (export "f") (result i32) (i32.const 8356) (drop) (memory.size)))"#),
+        ("imported-memory-max-65536-pages", r#"(module (import "e" "m" (memory 1 65536)) (func (export "f") (result i32) (i32.const 8357) (drop) (i32.load (i32.const 0))))"#),
+        ("imported-table-named", r#"(module (import "env" "tbl" (table $t 4 funcref)) (table $own 2 funcref) (func $f (export "f") (result i32) (i32.const 8358) (drop) (i32.add (table.size $t) (table.size $own))))"#),
+        // two functions whose operator counts in the input order them differently from their counts
+        // after a round trip (nops and dead code disappear, an else-less if may gain an `else`)
+        ("order:else-less-if vs 1 nop", r#"(module (func $a (export "a") (param i32) (i32.const 8360) (drop) (if (local.get 0) (then (drop (i32.const 1))))) (func $b (export "b") (param i32) (i32.const 8361) (drop) (drop (i32.const 2)) (drop (i32.const 3)) (nop)))"#),
+        ("order:else-less-if vs 2 nops", r#"(module (func $a (export "a") (param i32) (i32.const 8362) (drop) (if (local.get 0) (then (drop (i32.const 1))))) (func $b (export "b") (param i32) (i32.const 8363) (drop) (drop (i32.const 2)) (drop (i32.const 3)) (nop) (nop)))"#),
+        ("order:else-less-if vs 3 nops", r#"(module (func $a (export "a") (param i32) (i32.const 8364) (drop) (if (local.get 0) (then (drop (i32.const 1))))) (func $b (export "b") (param i32) (i32.const 8365) (drop) (drop (i32.const 2)) (drop (i32.const 3)) (nop) (nop) (nop)))"#),
+        ("order:dead code after return vs straight line", r#"(module (func $a (export "a") (param i32) (i32.const 8366) (drop) (return) (drop (i32.const 1)) (drop (i32.const 2)) (drop (i32.const 3))) (func $b (export "b") (param i32) (i32.const 8367) (drop) (drop (i32.const 2)) (drop (local.get 0))))"#),
+        ("order:nops first then else-less-if", r#"(module (func $b (export "b") (param i32) (i32.const 8368) (drop) (nop) (nop) (nop) (nop) (drop (i32.const 2))) (func $a (export "a") (param i32) (i32.const 8369) (drop) (if (local.get 0) (then (drop (i32.const 1)))) (drop (local.get 0))))"#),
         // an else-less if whose block type passes two or more values through (walrus synthesizes the missing arm)
         ("else-less-if-passing-two-values", r#"(module (func (export "f") (param i32 i64 i32) (result i32 i64) (local.get 0) (local.get 1) (local.get 2)
             (if (param i32 i64) (result i32 i64) (then (drop) (drop) (i32.const 1) (i64.const 2)))))"#),
